@@ -13,10 +13,58 @@
      - [resave_outcome]: the whole read / save / re-read / save-again pipeline as one function from
        bytes to a short list of numbers, evaluated by the harness on every mutant and compared with
        the implementation. *)
-From PsdV Require Import Base.Prelude Psd.Codec Psd.Model Psd.Corr.
-From Coq Require Import ZArith List Bool Lia.
+From PsdV Require Import Base.Prelude Psd.Codec Psd.Model.
+From Coq Require Import ZArith List Bool Lia Uint63.
 Import ListNotations.
 Open Scope Z_scope.
+
+(* ------------------------------------------------------------------ canonical flattening of the container structures, digests
+   (the same definitions as in Psd/Corr.v, repeated here so that the C02 files do not depend on that frequently
+   regenerated glue file; twin: the c_ functions of harness/vh/format_common.py) *)
+(* ---- byte strings as 7 bytes per 63-bit literal (harness: format_common.coq_bytes; same as Psd/Corr.v) *)
+Definition wb (w : int) (k : Z) : Z := to_Z (Uint63.land (Uint63.lsr w (of_Z k)) (of_Z 255)).
+Definition word_bytes (w : int) : list Z := [wb w 48; wb w 40; wb w 32; wb w 24; wb w 16; wb w 8; wb w 0].
+Definition bw (n : Z) (ws : list int) : list Z := firstn (Z.to_nat n) (flat_map word_bytes ws).
+Definition c_z (x : Z) : list Z := [x].
+Definition c_bytes (b : list Z) : list Z := len b :: b.
+Definition c_opt {A} (f : A -> list Z) (o : option A) : list Z :=
+  match o with None => [0] | Some a => 1 :: f a end.
+Definition c_list {A} (f : A -> list Z) (l : list A) : list Z := len l :: flat_map f l.
+
+Definition c_header (h : header) : list Z :=
+  [h_sig h; h_version h; h_channels h; h_height h; h_width h; h_depth h; h_mode h].
+Definition c_res (r : image_resource) : list Z :=
+  [ir_sig r; ir_key r] ++ c_bytes (ir_name r) ++ c_bytes (ir_data r).
+Definition c_tb (b : tagged_block) : list Z := [tb_sig b; tb_key b] ++ c_bytes (tb_data b).
+Definition c_flags (f : flags8) : list Z := [flags_byte f].
+Definition c_mp (p : mask_params) : list Z :=
+  c_opt c_z (mp_user_density p) ++ c_opt c_z (mp_user_feather p) ++
+  c_opt c_z (mp_vector_density p) ++ c_opt c_z (mp_vector_feather p).
+Definition c_mr (r : mask_real) : list Z :=
+  c_flags (mr_flags r) ++ [mr_bg r; mr_top r; mr_left r; mr_bottom r; mr_right r].
+Definition c_mask (m : mask_data) : list Z :=
+  [m_top m; m_left m; m_bottom m; m_right m; m_bg m] ++ c_flags (m_flags m) ++
+  c_opt c_mp (m_params m) ++ c_opt c_mr (m_real m).
+Definition c_pair (x : Z * Z) : list Z := [fst x; snd x].
+Definition c_br (r : blending_ranges) : list Z :=
+  c_opt (c_list c_pair) (br_comp r) ++ c_opt (c_list (c_list c_pair)) (br_chan r).
+Definition c_ci (c : channel_info) : list Z := [ci_id c; ci_len c].
+Definition c_rec (r : layer_record) : list Z :=
+  [r_top r; r_left r; r_bottom r; r_right r] ++ c_list c_ci (r_channels r) ++
+  [r_sig r; r_blend r; r_opacity r; r_clip r] ++ c_flags (r_flags r) ++
+  c_opt c_mask (r_mask r) ++ c_br (r_ranges r) ++ c_bytes (r_name r) ++ c_list c_tb (r_blocks r).
+Definition c_cd (c : channel_data) : list Z := cd_comp c :: c_bytes (cd_data c).
+Definition c_li (l : layer_info) : list Z :=
+  li_count l :: c_opt (c_list c_rec) (li_records l) ++ c_opt (c_list (c_list c_cd)) (li_chans l).
+Definition c_glmi (g : glmi) : list Z := c_opt (c_list c_z) (g_overlay g) ++ [g_opacity g; g_kind g].
+Definition c_lami (l : lami) : list Z :=
+  c_opt c_li (la_info l) ++ c_opt c_glmi (la_glmi l) ++ c_opt (c_list c_tb) (la_blocks l).
+Definition c_psd (d : psd) : list Z :=
+  c_header (p_header d) ++ c_bytes (p_cmd d) ++ c_list c_res (p_res d) ++ c_lami (p_lami d) ++ c_cd (p_img d).
+
+Definition enc := raw_codec.
+Definition dec := raw_codec.
+Definition dig (l : list Z) : Z := to_Z (h63_list 0%uint63 l).
 
 (* ------------------------------------------------------------------ the charset assumption *)
 Definition codec_ok (enc_s dec_s : list Z -> res (list Z)) : Prop :=
